@@ -68,6 +68,8 @@ class Prog:
         self.notes = []
         self.second_every = second_every
         self.nontrivial = False
+        self.validate_encoders = True
+        self._validated = set()
         self.pid = task.get("id") or text_id(task.get("text", ""), task.get("opts"))
         self.family = task.get("family", "?")
 
